@@ -67,6 +67,7 @@ FIELD_TYPES = {
     ('SupvisorsInstanceStatus', 'ghost_load'): INT,
     ('Context', 'ghost_node_load'): TDict(STR, INT),
     ('Starter', 'ghost_node_requests'): TDict(STR, INT),
+    ('ApplicationStatus', 'ghost_start_sequence_load'): INT,
 }
 
 # keys of payload records (Dict[str, Any] with literal keys) -> type
